@@ -19,12 +19,16 @@ class Clock(object):
         self.now = now
         self.on_sleep = None      # callable(seconds) -> None (C15: a scheduling point)
         self.sleeps = 0
+        self.sleep_log = []       # every argument time.sleep() was called with
 
     def time(self):
         return self.now
 
     def sleep(self, d):
-        self.now += max(0.0, d)
+        self.sleep_log.append(d)
+        if d < 0:
+            raise ValueError("sleep length must be non-negative")      # as the real time.sleep()
+        self.now += d
         self.sleeps += 1
         if self.on_sleep is not None:
             self.on_sleep(d)
@@ -387,6 +391,7 @@ class SimDevice(object):
         self.log = []
         self.field = False
         self.closed = False
+        self.sense_cost = 0.0
         self.counting = True      # tag budgets are consumed (a harness may restrict this to the presence phase)
         self.fault_hook = None    # callable(data) -> exception instance to raise instead of exchanging, or None
         self.fail_close = False
@@ -428,6 +433,7 @@ class SimDevice(object):
 
     def _sense(self, kind, target):
         def f():
+            self.clock.now += self.sense_cost       # one discovery attempt takes this long (virtual time)
             try:
                 r = self.env.sense(self, kind, target)
             except (self.ns.UnsupportedTargetError, IOError):
